@@ -38,7 +38,16 @@ pub struct NetState {
     /// path_mtu / MtuDrop only
     pub first_mtu_drop_ns: Option<u64>,
     pub delivered: u64,
+    /// the run exceeded the datagram budget: from `overloaded_at_ns` on everything is dropped
+    /// so that the run ends by idle timeouts; the plan is excluded (harness note, no verdict)
+    pub overloaded_at_ns: Option<u64>,
 }
+
+/// far above what any planned workload needs (3 MiB = a few thousand datagrams); only
+/// configuration-induced acknowledgement / *_BLOCKED ping-pong storms get here
+pub const MAX_DATAGRAMS: usize = 250_000;
+/// wall-clock backstop per execution (real time: SimNet runs outside the virtual clock)
+pub const MAX_WALL: Duration = Duration::from_secs(40);
 
 pub type SharedNet = Arc<Mutex<NetState>>;
 
@@ -51,6 +60,7 @@ pub struct SimNet {
     path_mtu: u16,
     faults_end_us: u64,
     ord: [u64; 2],
+    started: std::time::Instant,
 }
 
 impl SimNet {
@@ -64,6 +74,7 @@ impl SimNet {
             path_mtu: plan.path_mtu,
             faults_end_us: plan.faults_end_us,
             ord: [0; 2],
+            started: std::time::Instant::now(),
         }
     }
 
@@ -137,6 +148,15 @@ impl Network for SimNet {
                 let mut deliver = true;
                 let mut dup: Vec<u64> = vec![];
                 let mut sh = self.shared.lock().unwrap();
+                if sh.overloaded_at_ns.is_none()
+                    && (sh.log.len() >= MAX_DATAGRAMS || (sh.log.len() % 1024 == 0 && self.started.elapsed() > MAX_WALL))
+                {
+                    sh.overloaded_at_ns = Some(now);
+                }
+                if sh.overloaded_at_ns.is_some() {
+                    // not logged: the trace ends here
+                    continue;
+                }
                 if len > self.path_mtu as usize {
                     deliver = false;
                     rec.fate = "path_mtu";
